@@ -133,6 +133,9 @@ Record push_post (m : mem) (own : bufid -> N) (r : repr) (s : list N) (m' : mem)
   pp_grow : ok = true -> nreq m' = nreq m \/
             (is_heap r' = true /\ cap_of m' r' = amortized_growth (repr_len r) (len s) /\ nreq m' = nreq m + 1);
   pp_excl : ok = true -> s <> [] -> exclusive (heap m') r';
+  pp_cap : exclusive (heap m) r -> repr_len r + len s <= cap_of m r -> cap_of m' r' = cap_of m r;
+  pp_nofit : ok = true -> s <> [] -> exclusive (heap m) r -> cap_of m r < repr_len r + len s ->
+             nreq m' = nreq m + 1 /\ cap_of m' r' = amortized_growth (repr_len r) (len s);
 }.
 
 Lemma push_str_wp m own r s (Q : out (repr * bool) -> mem -> Prop) :
@@ -149,6 +152,8 @@ Proof.
     + intros _ _. auto.
     + intros _. left. reflexivity.
     + intros _ Hx. congruence.
+    + intros _ _. reflexivity.
+    + intros _ Hx. congruence.
   - set (s := c0 :: s0) in *.
     apply wp_bind. apply (reserve_wp m own r (len s)); auto. intros m1 r1 ok [P1 P2 P3 P4 P5 P6 P7]. unfold lift.
     destruct ok; cbn [negb].
@@ -158,6 +163,8 @@ Proof.
         - auto.
         - intros H1 H2. destruct (P6 H1 H2) as (Hbad & _). discriminate.
         - discriminate.
+        - discriminate.
+        - intros H1 H2. destruct (P6 H1 H2) as (Hbad & _). discriminate.
         - discriminate. }
     destruct (P4 eq_refl) as (Hex1 & Hcap1).
     pose proof (so_mi _ _ _ _ _ P1) as HM1. pose proof (so_h _ _ _ _ _ P1) as Hr1.
@@ -191,6 +198,11 @@ Proof.
       * intros H1 H2. destruct (P6 H1 H2) as (_ & E & Hh1 & Hn1). rewrite <- E. repeat split; auto.
       * intros _. destruct (P7 eq_refl) as [(_ & _ & Hn)|[(Hh & _)|(_ & _ & _ & _ & Hn)]]; auto. discriminate.
       * intros _ _. exact S3.
+      * intros H1 H2. destruct (P6 H1 H2) as (_ & E & Hh1 & Hn1). rewrite <- E. reflexivity.
+      * intros _ _ Hx Hlt. exfalso. destruct (P7 eq_refl) as [(E & Hh1 & Hn)|[(Hh & _)|(Hst & _)]].
+        -- assert (cap_of m r = 16) by (rewrite <- E; cbn [cap_of]; apply max_inline_16). lia.
+        -- discriminate.
+        -- destruct r; cbn in Hst, Hx; try discriminate; contradiction.
     + (* exclusive heap *)
       destruct Hex1 as (x & Hb & Hl & Hcx). cbn [cap_of] in Hcap1. rewrite Hb in Hcap1.
       cbn [text_of] in P2. rewrite Hb in P2. cbn [repr_len] in P3. subst l1.
@@ -217,6 +229,12 @@ Proof.
         -- right. repeat split; auto; [|lia]. rewrite S4. cbn [cap_of] in Hc2. rewrite Hb in Hc2. exact Hc2.
         -- discriminate.
       * intros _ _. exact S3.
+      * intros H1 H2. destruct (P6 H1 H2) as (_ & E & Hh1 & Hn1). rewrite <- E. rewrite S4.
+        cbn [cap_of]. rewrite <- Hh1, Hb. reflexivity.
+      * intros _ _ Hx Hlt. destruct (P7 eq_refl) as [(E & Hh1 & Hn)|[(Hh & Hc2 & Hn)|(Hst & _)]].
+        -- exfalso. assert (cap_of m r = cap x) by (rewrite <- E; cbn [cap_of]; rewrite <- Hh1, Hb; reflexivity). lia.
+        -- split; [lia|]. rewrite S4. cbn [cap_of] in Hc2. rewrite Hb in Hc2. exact Hc2.
+        -- exfalso. destruct r; cbn in Hst, Hx; try discriminate; contradiction.
 Qed.
 
 (* ---------- as_bytes ---------- *)
